@@ -575,6 +575,46 @@ def variant_rule(crate, prop, rule="C01.R3"):
                    verdict=verdict, where="%s:%s" % (tp.file, tp.line))
             if verdict == "BAD":
                 r.fail(prop, "variant-matrix %s" % (lit if lit is not None else "pass-through"), why + " (format_variant, template at line %s)" % tp.line, tp.file, tp.line)
+    # the variant's own `untagged` decides on its own: a test on something computed from it and from other inputs
+    # (`untagged && !unit`) makes the flag conditional
+    for blk in range(b.n):
+        sw = b.term(blk)
+        if sw["k"] != "switch" or b.is_cleanup(blk) or op_place(sw["discr"]) is None:
+            continue
+        o, root = panics.operand_origin_ex(b, sw["discr"])
+        if re.search(r"VariantAttr\.untagged$", o) or root is None or b.local_ty(root) != "bool":
+            continue
+        # does the tested value depend on the flag?
+        seen_l, todo, dep = set(), [root], False
+        while todo and len(seen_l) < 60:
+            cur = todo.pop()
+            if cur in seen_l:
+                continue
+            seen_l.add(cur)
+            for db, i, d in M.def_sites(b, cur):
+                if b.is_cleanup(db) or i == "term":
+                    continue
+                rv = d["rv"]
+                ops = [rv["op"]] if rv["k"] in ("use", "cast") else [rv["a"]] if rv["k"] == "unop" else [rv["a"], rv["b"]] if rv["k"] == "binop" else []
+                for o2 in ops:
+                    p2 = op_place(o2)
+                    if p2 is None:
+                        continue
+                    if ".untagged" in p2["p"] and "VariantAttr" in b.local_ty(p2["l"]):
+                        dep = True
+                    todo.append(p2["l"])
+            # `flag && other`: the value is set on both sides of a test of the flag
+            sides = set()
+            for db, i, d in M.real_defs(b, cur):
+                for s2, v2 in _edge_constraints(b, db):
+                    if re.search(r"VariantAttr\.untagged$", s2):
+                        sides.add(v2)
+            all_const = all(i2 != "term" and d2["rv"]["k"] == "use" and op_const(d2["rv"]["op"]) is not None for _, i2, d2 in M.real_defs(b, cur))
+            if b.local_ty(cur) == "bool" and {0, 1} <= sides and not all_const:      # (all constants: a drop flag of the compiler)
+                dep = True
+        if dep:
+            f, l = M.user_span(b.blocks[blk]["term"].get("span") or b.span)
+            r.fail(prop, "variant-untagged-conditional format_variant", "the test that selects the untagged representation looks at a value computed from `untagged` and something else: a variant marked `untagged` can still be emitted with its name", f or b.file(), l or b.line())
     if n == 0:
         r.fail(prop, "anchor-missing variant templates", "no template reaches formatted_variants.push(..) in format_variant", b.file(), b.line())
     r.floor = 8
@@ -780,8 +820,21 @@ def struct_tag_first_rule(crate, prop, rule="C01.R4"):
             others = [blk for blk, c in pushes if blk not in mine and op_place(c["args"][1]) is not None and
                       (lambda tp: tp is not None and any(re.match(r"^(\\{\\})+: \\{\\},$", S.unquote(l2) or "") for l2, _ in S.format_calls(tp.tokens)))(Q.stream_template(ib, op_place(c["args"][1])["l"], tpls))]
             first = not any(mine[0] in ib.reachable_from([ob]) for ob in others)
-        ok = slot0 and slot1 and first is not False
-        r.inst(fn=ib.path, tag_template='"{}": "{}",', first_slot=o0, second_slot_escaped=bool(slot1), pushed_before_members=first, ok=ok, where="%s:%s" % (t.file, t.line))
+        # the property is one of the members: pushed to the member list here, or produced inside a closure (the list's
+        # initial content).  A tag kept in a variable of its own and spliced into some of the object templates is not.
+        member = bool(mine)
+        if not member and ib.kind == "Closure":
+            # whose closure?  handed to an iterator adaptor it fills a list; handed to Option::map it makes a lone value
+            for pb in crate.bodies:
+                for blk2, c2 in pb.calls():
+                    if pb.is_cleanup(blk2):
+                        continue
+                    for a2 in c2["args"]:
+                        l2 = op_local(a2)
+                        if l2 is not None and any(o2["kind"] == "agg" and o2["rv"].get("closure") == ib.path for o2 in origins(pb, l2)):
+                            member = member or fn_matches(c2, r"Iterator::(map|filter_map|flat_map)$")
+        ok = slot0 and slot1 and first is not False and member
+        r.inst(fn=ib.path, tag_template='"{}": "{}",', first_slot=o0, second_slot_escaped=bool(slot1), pushed_before_members=first, is_a_member_of_the_list=member, ok=ok, where="%s:%s" % (t.file, t.line))
         if not ok:
             r.fail(prop, "struct-tag-shape named", "the tag property is not emitted first as `\"<tag>\": \"<name>\",` with the container's tag and the escaped type name", t.file, t.line)
     r.floor = 1
